@@ -80,21 +80,21 @@ Proof.
       * intros I. apply (inv_release k terms nl s tid e id own' I Er Ht).
 Qed.
 
-Lemma toke_enot : forall e, toke (enot e) = match eref e with RN _ => [(tid, enot e)] | RT _ => [] end.
-Proof. intros e. unfold OomOwnZK.toke, enot. simpl. reflexivity. Qed.
+Lemma toke_eflip : forall e, toke (eflip e) = match eref e with RN _ => [(tid, eflip e)] | RT _ => [] end.
+Proof. intros e. unfold OomOwnZK.toke, eflip. simpl. reflexivity. Qed.
 
 Lemma e_not_spec : forall s e s', e_not s e = Some s' ->
-  meq (toke e ++ cown s') (toke (enot e) ++ cown s) /\ kframe_ok s s'.
+  meq (toke e ++ cown s') (toke (eflip e) ++ cown s) /\ kframe_ok s s'.
 Proof.
-  intros s e s' H. unfold OomOwnZK.e_not in H. rewrite toke_enot. unfold OomOwnZK.toke.
+  intros s e s' H. unfold OomOwnZK.e_not in H. rewrite toke_eflip. unfold OomOwnZK.toke.
   destruct (eref e) as [x|id] eqn:Er.
   - inversion H; subst. split; [apply meq_refl | apply kframe_refl].
-  - destruct (edge_ok_b k terms (cn s) (enot e)) eqn:Hok; [|discriminate].
+  - destruct (edge_ok_b k terms (cn s) (eflip e)) eqn:Hok; [|discriminate].
     destruct (take_tok (tid, e) (cown s)) as [own'|] eqn:Ht; [|discriminate].
     inversion H; subst. simpl. split.
     + pose proof (take_tok_meq _ _ _ Ht) as M. intro x. generalize (M x). mqk.
     + split; [apply ext_shape; reflexivity|].
-      intros I. apply (inv_retoken k terms nl s (tid, e) (tid, enot e) own' I Ht); [reflexivity | exact Hok].
+      intros I. apply (inv_retoken k terms nl s (tid, e) (tid, eflip e) own' I Ht); [reflexivity | exact Hok].
 Qed.
 
 Lemma take_toks_meq2 : forall t e own own1, take_toks tid [t; e] own = Some own1 ->
